@@ -129,7 +129,7 @@ def run(ctx, thorough_bounds=False):
 
 def _machine(ctx):
     """statement lists on ONE live collection (members resized, member/collection update_self_config, .mazes, [i], len, lengths, cfg.n_mazes)
-    against the state machine MZ.CollState (driver op C16.machine; theorems C16_state_*). Oracle on the real code, independent of the model:
+    against the state machine MZ.Coll.CState (driver op C16.machine; theorems C16_state_*). Oracle on the real code, independent of the model:
     len / [i] / dataset_lengths follow the members as they are now at every statement, and whenever every resized member has had its
     config updated since (by its own or the collection's update_self_config) cfg.n_mazes equals len. A stale `.mazes` after a later resize
     is the library's documented cached_property and is compared with the model only."""
@@ -171,12 +171,25 @@ def _machine(ctx):
             for k, v in pool.items():
                 if v is m: return k
             return -1
-        outs, dirty, cur = [], set(), [list(l) for l in members]
+        outs, dirty, cur, cleans = [], set(), [list(l) for l in members], [True]
         for k, op in enumerate(ops):
             t = op[0]
             try:
                 if t == "set":
-                    c.maze_datasets[op[1]].mazes = [mz(i) for i in op[2]]; cur[op[1]] = list(op[2]); dirty.add(op[1]); outs.append(None)
+                    d = c.maze_datasets[op[1]]; new = [mz(i) for i in op[2]]
+                    how_set = (k + len(op[2]) + case_no) % 4        # a new list object, or the SAME list object edited in place by its owner
+                    if how_set == 0 or not isinstance(d.mazes, list): d.mazes = new
+                    elif how_set == 1: d.mazes[:] = new
+                    elif how_set == 2:
+                        while len(d.mazes) > 0: d.mazes.pop()
+                        d.mazes.extend(new)
+                    else:
+                        del d.mazes[len(new):]
+                        for q, m_ in enumerate(new):
+                            if q < len(d.mazes): d.mazes[q] = m_
+                            else: d.mazes.append(m_)
+                    ctx.count(f"member_set_how={['assign', 'slice', 'pop+extend', 'del+items'][how_set]}")
+                    cur[op[1]] = list(op[2]); dirty.add(op[1]); outs.append(None)
                 elif t == "mupd": c.maze_datasets[op[1]].update_self_config(); dirty.discard(op[1]); outs.append(None)
                 elif t == "cupd": c.update_self_config(); dirty.clear(); outs.append(None)
                 elif t == "mazes": outs.append([idof(m) for m in c.mazes])
@@ -186,6 +199,7 @@ def _machine(ctx):
                 elif t == "count": outs.append(int(c.cfg.n_mazes))
             except IndexError:
                 outs.append({"error": "IndexError"})
+            cleans.append(not dirty)
             flat = [i for l in cur for i in l]
             o = outs[-1]
             bad = None
@@ -197,11 +211,19 @@ def _machine(ctx):
                 bad = f"cfg.n_mazes gives {o} with every member config up to date, the members hold {len(flat)} mazes"
             if bad:
                 ctx.violate(f"statement {k} ({op[0]}) of {ops[:k + 1]} on a collection with members {members} (passed to the constructor as a {how}): {bad}", case); return
-        reqs.append(dict(op="C16.machine", members=members, ops=ops, extra_cfg_n=sum(extra))); reals.append(outs); cases.append(case)
+        reqs.append(dict(op="C16.machine", members=members, ops=ops, extra_cfg_n=sum(extra))); reals.append(outs); cases.append(dict(case, _cleans=cleans[:len(ops)]))
     for case, real, o in zip(cases, reals, ctx.driver.run_parallel(reqs)):
         ctx.traces_validated += 1
         if "error" in o and "outs" not in o:
             ctx.disagree(f"driver error {o['error']}", case); continue
+        cl_h = case.pop("_cleans")
+        in_range = all(op[1] < len(case["members"]) for op in case["ops"] if op[0] in ("set", "mupd"))
+        # (a `set` on a member that does not exist raises IndexError in the code and changes nothing; the specification-side `dirty` counts it
+        # all the same, which only makes the theorem's hypothesis stronger: there the model's clean must IMPLY the harness's)
+        if o.get("clean") is not None and (list(o["clean"]) != cl_h if in_range else any(a and not b for a, b in zip(o["clean"], cl_h))):
+            # the specification-side notion "no member resized since its config was last updated" (the hypothesis of C16_state_counts_invariant)
+            # must be the harness's own bookkeeping of the same thing
+            ctx.disagree(f"the model's `clean` flags {o['clean']} differ from the harness's own dirty-set bookkeeping {cl_h} on {case['ops']}", case)
         if o["outs"] != real:
             k = next((i for i, (a, b) in enumerate(zip(o["outs"], real)) if a != b), None)
             ctx.disagree(f"collection state machine and MazeDatasetCollection differ at statement {k} of {case['ops']} (members {case['members']}): model={o['outs'][k] if k is not None else o['outs']} impl={real[k] if k is not None else real}", case)
